@@ -254,17 +254,24 @@ func (db *ContractDB) parseLines(p *Program, pkgPath, file string, lines []strin
 	for _, it := range items {
 		switch it.kw {
 		case "func":
-			name := rel + "." + it.rest
+			// `func F` is the contract of F (used at call sites); `func F {label}` is a further, independently
+			// verified variant of it (e.g. a bounded stand-in without loop invariants) that call sites never use
+			rest, variant := it.rest, ""
+			if i := strings.Index(rest, "{"); i > 0 && strings.HasSuffix(strings.TrimSpace(rest), "}") {
+				variant = strings.TrimSpace(rest[i:])
+				rest = strings.TrimSpace(rest[:i])
+			}
+			name := rel + "." + rest
 			fn := p.FindFunc(name)
-			cur = &FnContract{Name: name, Fn: fn, Opts: map[string]string{}, File: file}
+			cur = &FnContract{Name: name + variant, Fn: fn, Opts: map[string]string{}, File: file}
 			curLoop = nil
 			if fn == nil {
 				db.errf("%s: contract for unknown function %s", file, name)
 				// keep it: a missing function under contract is a failure reported by the property check
-			} else {
+			} else if variant == "" {
 				db.byFn[fn] = cur
 			}
-			db.ByName[name] = cur
+			db.ByName[name+variant] = cur
 			db.Order = append(db.Order, cur)
 		case "stable":
 			// stable <package-level variable>...: not written while functions under contract run (keeps its value across havoc)
